@@ -933,6 +933,7 @@ def extract(ctx):
 
     # ---- _register_fuzzy_type: the final guard
     fuzzy_guard = False
+    fuzzy_rereg = False
     fn = find_def(core_tree, '_register_fuzzy_type', cls='TargetRegistry')
     if fn is None:
         P.add('TargetRegistry._register_fuzzy_type not found')
@@ -961,6 +962,25 @@ def extract(ctx):
         fuzzy_guard = (loop_ok and len(after) == 2
                        and any(_unify(st, want_init, m, la, lb) for st in before)
                        and _unify(after[0], want_if, m, la, lb) and _unify(after[1], want_ret, m, la, lb))
+        # the loop starts with the re-registration branch (63b9f8a): `if cur_type is new_type:` the item
+        # is popped and put back under the same key (it keeps its subtree, moves to the end), `registered`
+        # is set; the `issubclass(cur_type, new_type)` test comes after it
+        if loop_ok:
+            lbody = _strip_doc(loops[0].body)
+            first = lbody[0] if lbody else None
+            want_first = ast.parse('if cur_type is new_type:\n'
+                                   '    _type_tree[new_type] = _type_tree.pop(cur_type)\n'
+                                   '    registered = True\n').body[0]
+            if isinstance(first, ast.If) and _unify(first.test, want_first.test, m, la, lb):
+                got = list(first.body)
+                fuzzy_rereg = (len(got) == 2 and all(
+                    any(_unify(g, w, m, la, lb) for g in got) for w in want_first.body))
+                nxt = first.orelse[0] if len(first.orelse) == 1 and isinstance(first.orelse[0], ast.If) else None
+                want_sub = ast.parse('issubclass(cur_type, new_type)', mode='eval').body
+                fuzzy_rereg = fuzzy_rereg and nxt is not None and _unify(nxt.test, want_sub, m, la, lb)
+            if not fuzzy_rereg:
+                P.add('_register_fuzzy_type: the loop does not start with the re-registration branch '
+                      '`if cur_type is new_type: _type_tree[new_type] = _type_tree.pop(cur_type); registered = True`')
         if not loop_ok:
             P.add('_register_fuzzy_type: the snapshot loop was not recognised')
         elif not fuzzy_guard:
@@ -1146,6 +1166,7 @@ def extract(ctx):
         ('c13ClosestDropsSupers', 'Bool', bool(drops_supers)),
         ('c13MatchingDeepest', 'Bool', bool(matching_deepest)),
         ('c13FuzzyGuardsExisting', 'Bool', bool(fuzzy_guard)),
+        ('c13FuzzyReregisterMoves', 'Bool', bool(fuzzy_rereg)),
         ('c13GlommerOwnRegistry', 'Bool', bool(glommer_own)),
         ('c13GlommerCopiesOps', 'Bool', bool(glommer_copies)),
         ('c13GlommerDelegates', 'Bool', bool(glommer_delegates)),
